@@ -33,8 +33,8 @@ GMutV == {"m0", "m1"}
 GMut  == IF Small THEN {"g0", "m0"} ELSE GOwn \cup GMutV      \* possible destinations
 GAll  == IF Small THEN {"g0", "m0", "c0"} ELSE GOwn \cup GMutV \cup {"c0", "c1"}
 TOwn  == {"u0", "u1"}
-TSlot == [v0 |-> 0, w0 |-> 0, w1 |-> 1]                 \* w0 aliases v0
-TMutV == {"v0"}
+TSlot == [v0 |-> 0, v1 |-> 1, w0 |-> 0, w1 |-> 1]       \* w0 aliases v0, w1 aliases v1
+TMutV == {"v0", "v1"}
 TMut  == IF Small THEN {"u0", "v0"} ELSE TOwn \cup TMutV
 TAll  == IF Small THEN {"u0", "v0", "w0"} ELSE TOwn \cup TMutV \cup {"w0", "w1"}
 
